@@ -172,3 +172,617 @@ Theorem C04_store_order_refuted :
     map fst (args (snd (step true st (RemoveOne a T)))) <> map fst (args st).
 Proof. exact store_order_refuted. Qed.
 Print Assumptions C04_store_order_refuted.
+
+(** * Round 2: the value-parser theorems connected to the PARSER
+    (ParseProofs/TypedInv.v: invariant; TypedView.v: typed values and the bridge to the models above;
+    TypedReject.v: rejection side; TypedAccess.v: the typed store of a parse result; TypedExamples.v).
+    The parser-model modules are required without Import: their names are written qualified. *)
+From ClapModel Require Parse.Cmd Parse.Build Parse.Valid Parse.Matcher Parse.Errors Parse.Parser.
+From ClapModel Require ParseProofs.Relations ParseProofs.Totality ParseProofs.Provenance ParseProofs.Dispatch ParseProofs.KindSound ParseProofs.Unparse ParseProofs.UnparseTop ParseProofs.Globals ParseProofs.Invariant ParseProofs.IndexInv ParseProofs.TotalityMain.
+From ClapModel Require ParseProofs.TypedInv ParseProofs.TypedView ParseProofs.TypedAccess ParseProofs.TypedReject ParseProofs.TypedMerge ParseProofs.TypedExamples.
+
+(** The state predicate of round 2.  The matcher model stores raw values only (the typed values of
+    MatchedArg::vals are value_parser.parse_ref of them, pushed by the same add_val_to call); "typed" for a
+    level therefore means: every raw value in the entry of an ARGUMENT of the level was accepted by that
+    argument's value parser. *)
+Theorem C04_typed_entries_spec :
+  forall (c : Cmd.cmd) (l : list (Cmd.id * Matcher.marg)),
+         TypedInv.typed_entries c l <->
+         (forall (i : Cmd.id) (m : Matcher.marg) (a : Cmd.arg) (vp : Cmd.vparser),
+          In (i, m) l ->
+          Cmd.find_arg c i = Some a ->
+          Cmd.a_vp a = Some vp -> Forall (Forall (fun v : bytes => Parser.vp_parse vp v = None)) (Matcher.m_raw m)).
+Proof. exact TypedInv.typed_entries_spec. Qed.
+Print Assumptions C04_typed_entries_spec.
+
+(** THE INVARIANT, EVERY LEVEL.  For every command that passes the validity gate (sub-levels are gated by
+    the parser itself) and every token list: the state get_matches_with hands back -- on success AND on error
+    (what the caller receives under ignore_errors) -- is typed at this level and at every level of the recorded
+    subcommand chain.  Command-line, environment, default, conditional-default and default-missing values and the
+    action literals all go through push_arg_values, the only place that appends to an argument's entry.
+    (holds = partial correctness; panics are excluded by C01 for the class plain.) *)
+Theorem C04_parser_typed_levels :
+  forall (fuel : nat) (c : Cmd.cmd) (toks : list bytes) (st0 : Parser.ps),
+         Valid.assert_app c = true ->
+         TypedInv.TS c st0 -> Dispatch.holds (TypedInv.TS c) (TypedInv.TS c) (Parser.get_matches_with fuel c toks st0).
+Proof. exact TypedInv.gmw_typed. Qed.
+Print Assumptions C04_parser_typed_levels.
+
+(** what typed_matches says: this level, then the recorded subcommand -- a level of the lazily built child
+    definition, or the capture of an external subcommand (accepted by the external value parser) *)
+Theorem C04_typed_matches_unfold :
+  forall (c : Cmd.cmd) (args : list (Cmd.id * Matcher.marg)) (sub : option (bytes * Matcher.matches)),
+         TypedInv.typed_matches c (Matcher.Matches args sub) ->
+         TypedInv.typed_entries c args /\
+         match sub with
+         | Some (n, sm) =>
+             (exists sc : Cmd.cmd, Build.build_subcommand c n = Some sc /\ TypedInv.typed_matches sc sm) \/
+             (exists vals : list bytes,
+                sm = Matcher.Matches [(Parser.ext_id, Dispatch.ext_marg vals)] None /\
+                Forall (TypedInv.accepts (Cmd.opt_default Cmd.VPOsString (Cmd.c_ext_vp c))) vals)
+         | None => True
+         end.
+Proof. exact TypedInv.typed_matches_inv. Qed.
+Print Assumptions C04_typed_matches_unfold.
+
+(** root level of any valid definition, any token list *)
+Theorem C04_root_typed :
+  forall (c0 : Cmd.cmd) (toks : list bytes),
+         Valid.valid c0 = true ->
+         Dispatch.holds
+           (fun st : Parser.ps => TypedInv.typed_matches (Build.build_self c0) (Matcher.into_inner (Parser.mt st)))
+           (fun st : Parser.ps => TypedInv.typed_matches (Build.build_self c0) (Matcher.into_inner (Parser.mt st)))
+           (Parser.get_matches_with (S (S (Cmd.depth (Build.build_self c0)))) (Build.build_self c0) toks Parser.ps_new).
+Proof. exact TypedInv.root_typed. Qed.
+Print Assumptions C04_root_typed.
+
+(** parse_top: what is reported is the globals merge (reported, C09) of a chain that is typed at every level *)
+Theorem C04_parse_top_typed :
+  forall (c0 : Cmd.cmd) (argv : list bytes) (m : Matcher.matches),
+         Parser.parse_top c0 argv = Parser.OOk m ->
+         exists (c0' : Cmd.cmd) (st : Parser.ps),
+           (c0' = c0 \/ (exists b : bytes, c0' = TypedInv.with_bin c0 (Some b))) /\
+           m = Relations.reported c0' st /\
+           TypedInv.typed_matches (Build.build_self c0') (Matcher.into_inner (Parser.mt st)).
+Proof. exact TypedInv.parse_top_typed. Qed.
+Print Assumptions C04_parse_top_typed.
+
+(** ... and when no argument on the reported chain is global, the reported matches ARE that chain *)
+Theorem C04_do_parse_typed_noglobals :
+  forall (c0 : Cmd.cmd) (toks : list bytes) (m : Matcher.matches),
+         Parser.do_parse c0 toks = Parser.OOk m ->
+         (forall st : Parser.ps,
+          Parser.used_global_args (S (Parser.matches_depth (Matcher.into_inner (Parser.mt st))))
+            (Build.build_recursive (S (S (Cmd.depth (Build.build_self c0)))) c0) (Matcher.into_inner (Parser.mt st)) =
+          []) -> TypedInv.typed_matches (Build.build_self c0) m.
+Proof. exact TypedInv.do_parse_typed_noglobals. Qed.
+Print Assumptions C04_do_parse_typed_noglobals.
+
+(** THROUGH THE GLOBALS MERGE (ParseProofs/TypedMerge.v).  A typed chain, level by level: each level has a spec
+    (id -> value parser: cmd_spec c for a level of the command c, ext_spec c for the capture of an external
+    subcommand) and what the accessors can reach at that level is accepted by the parser its spec names. *)
+Theorem C04_typed_chain :
+  forall (c : Cmd.cmd) (m : Matcher.matches),
+         TypedInv.typed_matches c m ->
+         exists sps : list TypedMerge.spec,
+           TypedMerge.chain_specs c m sps /\ Forall2 TypedMerge.typed_lv sps (Globals.levels m).
+Proof. exact TypedMerge.typed_chain. Qed.
+Print Assumptions C04_typed_chain.
+
+(** The merge keeps every level typed PROVIDED the definitions agree on the parser of each global id wherever that id
+    has an entry (globals_consistent) -- the entry copied to the other levels keeps the typed values its own
+    level's parser produced. *)
+Theorem C04_merge_typed :
+  forall (fuel : nat) (globals : list Cmd.id) (m : Matcher.matches) (sps : list TypedMerge.spec),
+         (Parser.matches_depth m <= fuel)%nat ->
+         Forall2 TypedMerge.typed_lv sps (Globals.levels m) ->
+         TypedMerge.globals_consistent globals sps (Globals.levels m) ->
+         Forall2 TypedMerge.typed_lv sps (Globals.levels (fst (Globals.filled fuel globals m))).
+Proof. exact TypedMerge.merge_typed. Qed.
+Print Assumptions C04_merge_typed.
+
+(** what _do_parse reports, level by level, after the merge *)
+Theorem C04_do_parse_merged_typed :
+  forall (c0 : Cmd.cmd) (toks : list bytes) (m : Matcher.matches),
+         Parser.do_parse c0 toks = Parser.OOk m ->
+         exists (st : Parser.ps) (sps : list TypedMerge.spec),
+           m = Relations.reported c0 st /\
+           TypedMerge.chain_specs (Build.build_self c0) (Matcher.into_inner (Parser.mt st)) sps /\
+           (TypedMerge.globals_consistent
+              (Parser.used_global_args (S (Parser.matches_depth (Matcher.into_inner (Parser.mt st))))
+                 (Build.build_recursive (S (S (Cmd.depth (Build.build_self c0)))) c0)
+                 (Matcher.into_inner (Parser.mt st))) sps (Globals.levels (Matcher.into_inner (Parser.mt st))) ->
+            Forall2 TypedMerge.typed_lv sps (Globals.levels m)).
+Proof. exact TypedMerge.do_parse_merged_typed. Qed.
+Print Assumptions C04_do_parse_merged_typed.
+
+(** Rejection side, first half: a value outside the language of the argument's parser is never among the values
+    a typed level stores for that argument. *)
+Theorem C04_never_stored :
+  forall (c : Cmd.cmd) (l : list (Cmd.id * Matcher.marg)) (i : Cmd.id) (m : Matcher.marg) 
+           (a : Cmd.arg) (vp : Cmd.vparser) (v : bytes),
+         TypedInv.typed_entries c l ->
+         In (i, m) l ->
+         Cmd.find_arg c i = Some a ->
+         Cmd.a_vp a = Some vp -> Parser.vp_parse vp v <> None -> ~ In v (concat (Matcher.m_raw m)).
+Proof. exact TypedInv.never_stored. Qed.
+Print Assumptions C04_never_stored.
+
+(** str::parse::<i64> of the parser model = the digit-by-digit model of C04 (C04_str_parse) *)
+Theorem C04_parse_i64_agree :
+  forall s : bytes,
+         Parser.parse_i64 s =
+         match TypedView.IP.parse_i64 s with
+         | TypedView.IP.IOk z => Some z
+         | TypedView.IP.IErr _ => None
+         end.
+Proof. exact TypedView.parse_i64_agree. Qed.
+Print Assumptions C04_parse_i64_agree.
+
+(** The value parsers a definition of the parser model can name (String, Bool, the u8 parser of Count from the
+    regenerated factory table, RangedI64ValueParser<i64> with inclusive bounds) are C04's: accepted = VOk,
+    rejected with the same kind.  (OsString accepts everything and has no C04 counterpart.) *)
+Theorem C04_vp_bridge :
+  forall (vp : Cmd.vparser) (p : TypedView.VP.vparser) (s : bytes),
+         TypedView.embed vp = Some p ->
+         match TypedView.VP.vparse p s with
+         | VOk _ => Parser.vp_parse vp s = None
+         | VErr k => Parser.vp_parse vp s = Some (TypedView.ek k)
+         end.
+Proof. exact TypedView.bridge. Qed.
+Print Assumptions C04_vp_bridge.
+
+(** typed_value vp raw = value_parser.parse_ref(raw): it exists exactly when the parser model accepts *)
+Theorem C04_typed_value_accepts :
+  forall (vp : Cmd.vparser) (s : bytes),
+         TypedInv.accepts vp s <-> (exists v : TypedView.tv, TypedView.typed_value vp s = Some v).
+Proof. exact TypedView.typed_value_accepts. Qed.
+Print Assumptions C04_typed_value_accepts.
+
+(** Typed and raw have the same shape, and each typed value is the image of the raw value at the same place. *)
+Theorem C04_entry_typed_view :
+  forall (c : Cmd.cmd) (l : list (Cmd.id * Matcher.marg)) (i : Cmd.id) (m : Matcher.marg) 
+           (a : Cmd.arg) (vp : Cmd.vparser),
+         TypedInv.typed_entries c l ->
+         In (i, m) l ->
+         Cmd.find_arg c i = Some a ->
+         Cmd.a_vp a = Some vp -> exists tvs : list (list TypedView.tv), TypedView.typed_of vp (Matcher.m_raw m) tvs.
+Proof. exact TypedView.entry_typed_view. Qed.
+Print Assumptions C04_entry_typed_view.
+
+(** Ranged integer argument: every stored raw string is well-formed, a decimal [+-]?[0-9]+ whose unbounded integer
+    reading lies in the declared range AND in the target type, and that reading IS the typed value (never wrapped
+    or truncated). *)
+Theorem C04_stored_i64 :
+  forall (c : Cmd.cmd) (l : list (Cmd.id * Matcher.marg)),
+         TypedInv.typed_entries c l ->
+         forall (i : Cmd.id) (m : Matcher.marg) (a : Cmd.arg),
+         In (i, m) l ->
+         Cmd.find_arg c i = Some a ->
+         forall lo hi : Z,
+         Cmd.a_vp a = Some (Cmd.VPI64 lo hi) ->
+         Forall
+           (Forall
+              (fun s : bytes =>
+               TypedView.int_reading lo hi i64_min i64_max s /\
+               TypedView.typed_value (Cmd.VPI64 lo hi) s =
+               Some (TypedView.TVal (TypedView.VP.TVInt (TypedView.IPP.intval s))))) (Matcher.m_raw m).
+Proof. exact TypedView.stored_i64. Qed.
+Print Assumptions C04_stored_i64.
+
+(** the u8 parser of ArgAction::Count: 0..255, inside u8 *)
+Theorem C04_stored_count :
+  forall (c : Cmd.cmd) (l : list (Cmd.id * Matcher.marg)),
+         TypedInv.typed_entries c l ->
+         forall (i : Cmd.id) (m : Matcher.marg) (a : Cmd.arg),
+         In (i, m) l ->
+         Cmd.find_arg c i = Some a ->
+         Cmd.a_vp a = Some Cmd.VPCount ->
+         Forall
+           (Forall
+              (fun s : bytes =>
+               TypedView.int_reading 0 255 0 255 s /\
+               TypedView.typed_value Cmd.VPCount s =
+               Some (TypedView.TVal (TypedView.VP.TVInt (TypedView.IPP.intval s))))) (Matcher.m_raw m).
+Proof. exact TypedView.stored_count. Qed.
+Print Assumptions C04_stored_count.
+
+(** bool argument: exactly "true" / "false", typed value the corresponding boolean *)
+Theorem C04_stored_bool :
+  forall (c : Cmd.cmd) (l : list (Cmd.id * Matcher.marg)),
+         TypedInv.typed_entries c l ->
+         forall (i : Cmd.id) (m : Matcher.marg) (a : Cmd.arg),
+         In (i, m) l ->
+         Cmd.find_arg c i = Some a ->
+         Cmd.a_vp a = Some Cmd.VPBool ->
+         Forall
+           (Forall
+              (fun s : bytes =>
+               exists b : bool,
+                 s = (if b then TypedView.BP.lit_true else TypedView.BP.lit_false) /\
+                 TypedView.typed_value Cmd.VPBool s = Some (TypedView.TVal (TypedView.VP.TVBool b)))) 
+           (Matcher.m_raw m).
+Proof. exact TypedView.stored_bool. Qed.
+Print Assumptions C04_stored_bool.
+
+(** String argument: well-formed UTF-8, the typed value is the string itself *)
+Theorem C04_stored_string :
+  forall (c : Cmd.cmd) (l : list (Cmd.id * Matcher.marg)),
+         TypedInv.typed_entries c l ->
+         forall (i : Cmd.id) (m : Matcher.marg) (a : Cmd.arg),
+         In (i, m) l ->
+         Cmd.find_arg c i = Some a ->
+         Cmd.a_vp a = Some Cmd.VPString ->
+         Forall
+           (Forall
+              (fun s : bytes =>
+               utf8_valid s = true /\
+               TypedView.typed_value Cmd.VPString s = Some (TypedView.TVal (TypedView.VP.TVStr s)))) 
+           (Matcher.m_raw m).
+Proof. exact TypedView.stored_string. Qed.
+Print Assumptions C04_stored_string.
+
+(** Rejection side, whole line: an invocation of C02's un-parser class (any mix of --opt=v, --opt v.., clusters,
+    positional runs) in which the occurrences give an argument a value outside its parser's language is NOT
+    accepted (conservation: an accepting parse would report it; the invariant: it cannot). *)
+Theorem C04_bad_value_not_accepted :
+  forall (c : Cmd.cmd) (f : nat) (its : list Unparse.item) (a : Cmd.arg) (vp : Cmd.vparser)
+           (gs : Actions.groups) (v : bytes),
+         Unparse.conv c = true ->
+         Cmd.is_set Cmd.s_ignore_errors c = false ->
+         Unparse.wf_items c Parser.PSValuesDone 1 its = true ->
+         In a (Cmd.c_args c) ->
+         Cmd.a_vp a = Some vp ->
+         UnparseTop.denote_arg c (Cmd.a_id a) its = Some gs ->
+         In v (concat gs) ->
+         Parser.vp_parse vp v <> None ->
+         forall st : Parser.ps, Parser.get_matches_with (S f) c (Unparse.render its) Parser.ps_new <> Parser.ROk st.
+Proof. exact TypedReject.bad_value_not_accepted. Qed.
+Print Assumptions C04_bad_value_not_accepted.
+
+(** When parse_top rejects with a value-error kind, a level of the chain has an argument a and a value v coming from
+    the line or the definition such that a's value parser -- the parser model's and, through the bridge, C04's --
+    refuses v with exactly the reported kind and the error carries a's id (the model's error record names the
+    argument for every kind; the implementation's InvalidUtf8 message does not print it: finding
+    C04-invalid-utf8-unnamed); or the value belongs to an external subcommand; or an occurrence has an empty
+    value list (InvalidValue); or an external subcommand name is not UTF-8. *)
+Theorem C04_value_error_sound :
+  forall (c0 : Cmd.cmd) (argv : list bytes) (e : Errors.error),
+         Totality.plain c0 = true ->
+         (forall b : option bytes, Valid.valid (TypedInv.with_bin c0 b) = true) ->
+         Valid.valid c0 = true ->
+         Parser.parse_top c0 argv = Parser.OErr e ->
+         TypedReject.value_kind (Errors.e_kind e) ->
+         exists (b : option bytes) (T : list bytes) (c' : Cmd.cmd) (T' : list bytes),
+           KindSound.suffix_of T argv /\
+           KindSound.reach (Build.build_self (TypedInv.with_bin c0 b)) T c' T' /\
+           (TypedReject.refused_by c' T' e \/
+            (exists v : bytes,
+               In v T' /\
+               Cmd.is_set Cmd.s_allow_external c' = true /\
+               Parser.vp_parse (Cmd.opt_default Cmd.VPOsString (Cmd.c_ext_vp c')) v = Some (Errors.e_kind e)) \/
+            Errors.e_kind e = Errors.EInvalidValue /\
+            (exists (a : Cmd.arg) (raw : list bytes) (r : Cmd.vrange),
+               In a (Cmd.c_args c') /\
+               KindSound.occurs c' T' a /\
+               Cmd.a_num a = Some r /\
+               Errors.e_arg e = Cmd.a_id a /\ ErrorSound.count_breaks (Errors.e_kind e) r (N.of_nat (length raw))) \/
+            Errors.e_kind e = Errors.EInvalidUtf8 /\
+            (exists tok : bytes, In tok T' /\ utf8_valid tok = false /\ Cmd.is_set Cmd.s_allow_external c' = true)).
+Proof. exact TypedReject.value_error_sound. Qed.
+Print Assumptions C04_value_error_sound.
+
+(** TYPED ACCESS ON THE RESULT OF THE PARSE.  store_of c l is the ArgMatches whose entries are the matcher entries l
+    (same keys, same order; an argument's entry declares its parser's type id and holds a typed value next to each
+    raw value; a group's entry declares none).  For every successful root level of a valid plain definition it
+    satisfies the store invariant of C04_typed_store (keys unique by C02's index invariant). *)
+Theorem C04_parse_store_wf :
+  forall (rend : Cmd.vparser -> bytes -> bytes) (c0 : Cmd.cmd) (toks : list bytes) (st : Parser.ps),
+         Totality.plain c0 = true ->
+         Valid.valid c0 = true ->
+         Parser.get_matches_with (S (S (Cmd.depth (Build.build_self c0)))) (Build.build_self c0) toks Parser.ps_new =
+         Parser.ROk st ->
+         TypedAccess.TSP.wf_store (TypedAccess.store_of rend (Build.build_self c0) (Matcher.mt_args (Parser.mt st))).
+Proof. exact TypedAccess.parse_store_wf. Qed.
+Print Assumptions C04_parse_store_wf.
+
+(** what the accessors can reach IS what the parser stored: same look-up, declared type = the type of the
+    argument's value parser, raw and typed side by side, every typed value the image of an accepted raw value *)
+Theorem C04_parse_store_typed :
+  forall (rend : Cmd.vparser -> bytes -> bytes) (c0 : Cmd.cmd) (toks : list bytes) (st : Parser.ps),
+         Valid.valid c0 = true ->
+         Parser.get_matches_with (S (S (Cmd.depth (Build.build_self c0)))) (Build.build_self c0) toks Parser.ps_new =
+         Parser.ROk st ->
+         forall (i : id) (en : entry),
+         TypedAccess.TSP.lookup (TypedAccess.store_of rend (Build.build_self c0) (Matcher.mt_args (Parser.mt st))) i =
+         Some en ->
+         exists ma : Matcher.marg,
+           Matcher.fm_get i (Matcher.mt_args (Parser.mt st)) = Some ma /\
+           en = TypedAccess.entry_of rend (Build.build_self c0) i ma /\
+           TypedAccess.TSt.e_raw en = Matcher.m_raw ma /\
+           (forall (a : Cmd.arg) (vp : Cmd.vparser),
+            Cmd.find_arg (Build.build_self c0) i = Some a ->
+            Cmd.a_vp a = Some vp ->
+            TypedAccess.TSt.e_type en = Some (Cmd.vp_type vp) /\
+            TypedAccess.TSt.e_vals en = map (map (fun r : bytes => (Cmd.vp_type vp, rend vp r))) (Matcher.m_raw ma) /\
+            (exists tvs : list (list TypedView.tv), TypedView.typed_of vp (Matcher.m_raw ma) tvs)).
+Proof. exact TypedAccess.parse_store_typed. Qed.
+Print Assumptions C04_parse_store_typed.
+
+(** every history of typed get/remove calls on the result of the parse refines the finite map and never hits an internal expect *)
+Theorem C04_parse_store_access :
+  forall (rend : Cmd.vparser -> bytes -> bytes) (c0 : Cmd.cmd) (toks : list bytes) (st : Parser.ps),
+         Totality.plain c0 = true ->
+         Valid.valid c0 = true ->
+         Parser.get_matches_with (S (S (Cmd.depth (Build.build_self c0)))) (Build.build_self c0) toks Parser.ps_new =
+         Parser.ROk st ->
+         forall (dbg : bool) (ops : list TypedAccess.TSt.op),
+         let
+         '(xs, S') :=
+          TypedAccess.TSt.run dbg (TypedAccess.store_of rend (Build.build_self c0) (Matcher.mt_args (Parser.mt st)))
+            ops in
+          let
+          '(ys, m') :=
+           TypedAccess.TSP.arun dbg
+             (TypedAccess.TSt.valid_args
+                (TypedAccess.store_of rend (Build.build_self c0) (Matcher.mt_args (Parser.mt st))))
+             (TypedAccess.TSP.lookup (TypedAccess.store_of rend (Build.build_self c0) (Matcher.mt_args (Parser.mt st))))
+             ops in
+           Forall2 TypedAccess.TSP.out_sim xs ys /\
+           (forall i : id, TypedAccess.TSP.lookup S' i = m' i) /\
+           TypedAccess.TSP.wf_store S' /\
+           TypedAccess.TSt.valid_args S' =
+           TypedAccess.TSt.valid_args
+             (TypedAccess.store_of rend (Build.build_self c0) (Matcher.mt_args (Parser.mt st))) /\
+           ~ In TypedAccess.TSt.OPanic xs.
+Proof. exact TypedAccess.parse_store_access. Qed.
+Print Assumptions C04_parse_store_access.
+
+(** a failing access -- whatever the reason -- leaves every entry exactly as the parser stored it *)
+Theorem C04_parse_failing_access :
+  forall (rend : Cmd.vparser -> bytes -> bytes) (c0 : Cmd.cmd) (toks : list bytes) (st : Parser.ps),
+         Totality.plain c0 = true ->
+         Valid.valid c0 = true ->
+         Parser.get_matches_with (S (S (Cmd.depth (Build.build_self c0)))) (Build.build_self c0) toks Parser.ps_new =
+         Parser.ROk st ->
+         forall (dbg : bool) (o : TypedAccess.TSt.op) (e : TypedAccess.TSt.merr),
+         fst
+           (TypedAccess.TSt.step dbg (TypedAccess.store_of rend (Build.build_self c0) (Matcher.mt_args (Parser.mt st)))
+              o) = TypedAccess.TSt.OErr e ->
+         forall i : id,
+         TypedAccess.TSP.lookup
+           (snd
+              (TypedAccess.TSt.step dbg
+                 (TypedAccess.store_of rend (Build.build_self c0) (Matcher.mt_args (Parser.mt st))) o)) i =
+         option_map (TypedAccess.entry_of rend (Build.build_self c0) i)
+           (Matcher.fm_get i (Matcher.mt_args (Parser.mt st))).
+Proof. exact TypedAccess.parse_failing_access. Qed.
+Print Assumptions C04_parse_failing_access.
+
+(** an id that is neither an argument nor a group of the command fails (debug builds) *)
+Theorem C04_parse_unknown_id :
+  forall (rend : Cmd.vparser -> bytes -> bytes) (c0 : Cmd.cmd) (toks : list bytes) (st : Parser.ps),
+         Totality.plain c0 = true ->
+         Valid.valid c0 = true ->
+         Parser.get_matches_with (S (S (Cmd.depth (Build.build_self c0)))) (Build.build_self c0) toks Parser.ps_new =
+         Parser.ROk st ->
+         forall o : TypedAccess.TSt.op,
+         o <> TypedAccess.TSt.Ids ->
+         TypedAccess.TSP.op_id o <> [] ->
+         Cmd.id_exists (Build.build_self c0) (TypedAccess.TSP.op_id o) = false ->
+         fst
+           (TypedAccess.TSt.step true
+              (TypedAccess.store_of rend (Build.build_self c0) (Matcher.mt_args (Parser.mt st))) o) =
+         TypedAccess.TSt.OErr TypedAccess.TSt.UnknownArgument.
+Proof. exact TypedAccess.parse_unknown_id. Qed.
+Print Assumptions C04_parse_unknown_id.
+
+(** a type other than the one of the argument's value parser fails with a downcast error *)
+Theorem C04_parse_wrong_type :
+  forall (rend : Cmd.vparser -> bytes -> bytes) (c0 : Cmd.cmd) (toks : list bytes) (st : Parser.ps),
+         Totality.plain c0 = true ->
+         Valid.valid c0 = true ->
+         Parser.get_matches_with (S (S (Cmd.depth (Build.build_self c0)))) (Build.build_self c0) toks Parser.ps_new =
+         Parser.ROk st ->
+         forall (dbg : bool) (o : TypedAccess.TSt.op) (a : Cmd.arg) (vp : Cmd.vparser) (ma : Matcher.marg),
+         o <> TypedAccess.TSt.Ids ->
+         Cmd.find_arg (Build.build_self c0) (TypedAccess.TSP.op_id o) = Some a ->
+         Cmd.a_vp a = Some vp ->
+         Matcher.fm_get (TypedAccess.TSP.op_id o) (Matcher.mt_args (Parser.mt st)) = Some ma ->
+         Cmd.vp_type vp <> TypedAccess.TSP.op_tag o ->
+         fst
+           (TypedAccess.TSt.step dbg (TypedAccess.store_of rend (Build.build_self c0) (Matcher.mt_args (Parser.mt st)))
+              o) = TypedAccess.TSt.OErr (TypedAccess.TSt.Downcast (Cmd.vp_type vp) (TypedAccess.TSP.op_tag o)).
+Proof. exact TypedAccess.parse_wrong_type. Qed.
+Print Assumptions C04_parse_wrong_type.
+
+(** ... and at EVERY level of the recursion (the hypotheses of C02_level_indices: any depth, any entry state satisfying
+    the index invariant and the typed invariant -- in particular the fresh state a child level starts from):
+    the ArgMatches of the level satisfies the store invariant, *)
+Theorem C04_level_store_wf :
+  forall (rend : Cmd.vparser -> bytes -> bytes) (fuel : nat) (c : Cmd.cmd) (toks : list bytes)
+           (st0 st : Parser.ps),
+         Totality.tree_ok fuel c ->
+         Invariant.G c IndexInv.idx_inv TotalityMain.trivV st0 ->
+         Parser.get_matches_with fuel c toks st0 = Parser.ROk st ->
+         TypedAccess.TSP.wf_store (TypedAccess.store_of rend c (Matcher.mt_args (Parser.mt st))).
+Proof. exact TypedAccess.level_store_wf. Qed.
+Print Assumptions C04_level_store_wf.
+
+(** its accessors read the level's matcher entries (typed as above), *)
+Theorem C04_level_store_typed :
+  forall (rend : Cmd.vparser -> bytes -> bytes) (fuel : nat) (c : Cmd.cmd) (toks : list bytes)
+           (st0 st : Parser.ps),
+         Totality.tree_ok fuel c ->
+         TypedInv.TS c st0 ->
+         Parser.get_matches_with fuel c toks st0 = Parser.ROk st ->
+         forall (i : id) (en : entry),
+         TypedAccess.TSP.lookup (TypedAccess.store_of rend c (Matcher.mt_args (Parser.mt st))) i = Some en ->
+         exists ma : Matcher.marg,
+           Matcher.fm_get i (Matcher.mt_args (Parser.mt st)) = Some ma /\
+           en = TypedAccess.entry_of rend c i ma /\
+           TypedAccess.TSt.e_raw en = Matcher.m_raw ma /\
+           (forall (a : Cmd.arg) (vp : Cmd.vparser),
+            Cmd.find_arg c i = Some a ->
+            Cmd.a_vp a = Some vp ->
+            TypedAccess.TSt.e_type en = Some (Cmd.vp_type vp) /\
+            TypedAccess.TSt.e_vals en = map (map (fun r : bytes => (Cmd.vp_type vp, rend vp r))) (Matcher.m_raw ma) /\
+            (exists tvs : list (list TypedView.tv), TypedView.typed_of vp (Matcher.m_raw ma) tvs)).
+Proof. exact TypedAccess.level_store_typed. Qed.
+Print Assumptions C04_level_store_typed.
+
+(** every history of typed accesses on it refines the finite map, *)
+Theorem C04_level_store_access :
+  forall (rend : Cmd.vparser -> bytes -> bytes) (fuel : nat) (c : Cmd.cmd) (toks : list bytes)
+           (st0 st : Parser.ps),
+         Totality.tree_ok fuel c ->
+         Invariant.G c IndexInv.idx_inv TotalityMain.trivV st0 ->
+         Parser.get_matches_with fuel c toks st0 = Parser.ROk st ->
+         forall (dbg : bool) (ops : list TypedAccess.TSt.op),
+         let
+         '(xs, S') := TypedAccess.TSt.run dbg (TypedAccess.store_of rend c (Matcher.mt_args (Parser.mt st))) ops in
+          let
+          '(ys, m') :=
+           TypedAccess.TSP.arun dbg
+             (TypedAccess.TSt.valid_args (TypedAccess.store_of rend c (Matcher.mt_args (Parser.mt st))))
+             (TypedAccess.TSP.lookup (TypedAccess.store_of rend c (Matcher.mt_args (Parser.mt st)))) ops in
+           Forall2 TypedAccess.TSP.out_sim xs ys /\
+           (forall i : id, TypedAccess.TSP.lookup S' i = m' i) /\
+           TypedAccess.TSP.wf_store S' /\
+           TypedAccess.TSt.valid_args S' =
+           TypedAccess.TSt.valid_args (TypedAccess.store_of rend c (Matcher.mt_args (Parser.mt st))) /\
+           ~ In TypedAccess.TSt.OPanic xs.
+Proof. exact TypedAccess.level_store_access. Qed.
+Print Assumptions C04_level_store_access.
+
+(** and a failing access leaves every entry as the parser stored it. *)
+Theorem C04_level_failing_access :
+  forall (rend : Cmd.vparser -> bytes -> bytes) (fuel : nat) (c : Cmd.cmd) (toks : list bytes)
+           (st0 st : Parser.ps),
+         Totality.tree_ok fuel c ->
+         Invariant.G c IndexInv.idx_inv TotalityMain.trivV st0 ->
+         Parser.get_matches_with fuel c toks st0 = Parser.ROk st ->
+         forall (dbg : bool) (o : TypedAccess.TSt.op) (e : TypedAccess.TSt.merr),
+         fst (TypedAccess.TSt.step dbg (TypedAccess.store_of rend c (Matcher.mt_args (Parser.mt st))) o) =
+         TypedAccess.TSt.OErr e ->
+         forall i : id,
+         TypedAccess.TSP.lookup
+           (snd (TypedAccess.TSt.step dbg (TypedAccess.store_of rend c (Matcher.mt_args (Parser.mt st))) o)) i =
+         option_map (TypedAccess.entry_of rend c i) (Matcher.fm_get i (Matcher.mt_args (Parser.mt st))).
+Proof. exact TypedAccess.level_failing_access. Qed.
+Print Assumptions C04_level_failing_access.
+
+(** `p --num +7 -vv --qu abc sub --k=2` parses; line, env and literal values stored at both levels *)
+Theorem C04_ex_parse :
+  exists m sm : Matcher.matches,
+           Parser.parse_top TypedExamples.TypedEx.c0 TypedExamples.TypedEx.argv = Parser.OOk m /\
+           TypedExamples.TypedEx.sub_of m = Some sm /\
+           TypedExamples.TypedEx.raws m TypedExamples.TypedEx.w_num = Some [[[43; 55]]] /\
+           TypedExamples.TypedEx.raws m [118] = Some [[[50]]] /\
+           TypedExamples.TypedEx.raws m TypedExamples.TypedEx.w_qu = Some [[Cmd.s_true]] /\
+           TypedExamples.TypedEx.raws m TypedExamples.TypedEx.w_lvl = Some [[[55]]] /\
+           TypedExamples.TypedEx.raws m [119] = Some [[[97; 98; 99]]] /\
+           TypedExamples.TypedEx.raws sm [107] = Some [[[50]]].
+Proof. exact TypedExamples.TypedEx.ex_parse. Qed.
+Print Assumptions C04_ex_parse.
+
+(** Non-vacuity (ParseProofs/TypedExamples.v): prog --num <i64 -5..10, default 3> -v (Count) --qu (SetTrue)
+    --lvl <i64 0..100, env 7> <word> sub --k <i64 1..2> *)
+Theorem C04_ex_valid :
+  Valid.valid TypedExamples.TypedEx.c0 = true /\ Totality.plain TypedExamples.TypedEx.c0 = true.
+Proof. exact TypedExamples.TypedEx.ex_valid. Qed.
+Print Assumptions C04_ex_valid.
+
+Theorem C04_ex_valid_any_bin :
+  forall b : option bytes, Valid.valid (TypedInv.with_bin TypedExamples.TypedEx.c0 b) = true.
+Proof. exact TypedExamples.TypedEx.ex_valid_any_bin. Qed.
+Print Assumptions C04_ex_valid_any_bin.
+
+Theorem C04_ex_typed :
+  TypedView.typed_value (Cmd.VPI64 (-5) 10) [43; 55] = Some (TypedView.TVal (TVInt 7)) /\
+         TypedView.typed_value Cmd.VPCount [50] = Some (TypedView.TVal (TVInt 2)) /\
+         TypedView.typed_value Cmd.VPBool Cmd.s_true = Some (TypedView.TVal (TVBool true)) /\
+         TypedView.typed_value (Cmd.VPI64 (-5) 10) [49; 49] = None /\
+         Parser.vp_parse (Cmd.VPI64 (-5) 10) [49; 49] = Some Errors.EValueValidation.
+Proof. exact TypedExamples.TypedEx.ex_typed. Qed.
+Print Assumptions C04_ex_typed.
+
+(** `p --num 11`: a value error naming the argument *)
+Theorem C04_ex_reject :
+  exists err : Errors.error,
+           Parser.parse_top TypedExamples.TypedEx.c0 TypedExamples.TypedEx.argv_bad = Parser.OErr err /\
+           Errors.e_kind err = Errors.EValueValidation /\ Errors.e_arg err = TypedExamples.TypedEx.w_num.
+Proof. exact TypedExamples.TypedEx.ex_reject. Qed.
+Print Assumptions C04_ex_reject.
+
+(** the hypotheses of C04_bad_value_not_accepted hold for the rendered invocation `--num 11 -vv` *)
+Theorem C04_ex_bad_rendered :
+  Unparse.conv TypedExamples.TypedEx.c = true /\
+         Cmd.is_set Cmd.s_ignore_errors TypedExamples.TypedEx.c = false /\
+         Unparse.wf_items TypedExamples.TypedEx.c Parser.PSValuesDone 1 TypedExamples.TypedEx.its = true /\
+         In (nth 0 (Cmd.c_args TypedExamples.TypedEx.c) TypedExamples.TypedEx.n) (Cmd.c_args TypedExamples.TypedEx.c) /\
+         Cmd.a_vp (nth 0 (Cmd.c_args TypedExamples.TypedEx.c) TypedExamples.TypedEx.n) = Some (Cmd.VPI64 (-5) 10) /\
+         Cmd.a_id (nth 0 (Cmd.c_args TypedExamples.TypedEx.c) TypedExamples.TypedEx.n) = TypedExamples.TypedEx.w_num /\
+         UnparseTop.denote_arg TypedExamples.TypedEx.c TypedExamples.TypedEx.w_num TypedExamples.TypedEx.its =
+         Some [[[49; 49]]] /\
+         Parser.vp_parse (Cmd.VPI64 (-5) 10) [49; 49] <> None /\
+         Unparse.render TypedExamples.TypedEx.its =
+         [TypedExamples.TypedEx.dd TypedExamples.TypedEx.w_num; [49; 49]; [45; 118; 118]].
+Proof. exact TypedExamples.TypedEx.ex_bad_rendered. Qed.
+Print Assumptions C04_ex_bad_rendered.
+
+(** a history with a wrong type, a failed remove, an unknown id, then successful accesses, on a parse result *)
+Theorem C04_ex_access :
+  exists st : Parser.ps,
+           Parser.get_matches_with (S (S (Cmd.depth TypedExamples.TypedEx.c))) TypedExamples.TypedEx.c
+             TypedExamples.TypedEx.toks1 Parser.ps_new = Parser.ROk st /\
+           (let S0 :=
+              TypedAccess.store_of TypedExamples.TypedEx.rend0 TypedExamples.TypedEx.c (Matcher.mt_args (Parser.mt st))
+              in
+            fst
+              (run true S0
+                 [GetOne TypedExamples.TypedEx.w_num 0; RemoveOne TypedExamples.TypedEx.w_num 2; 
+                  GetOne [122] 4; GetOne TypedExamples.TypedEx.w_num 4; RemoveOne [118] 3; 
+                  GetOne [118] 3]) =
+            [OErr (Downcast 4 0); OErr (Downcast 4 2); OErr UnknownArgument; OOne [43; 55]; OOne [50]; ONone]).
+Proof. exact TypedExamples.TypedEx.ex_access. Qed.
+Print Assumptions C04_ex_access.
+
+(** OBSERVATION (replayed on the implementation, see docs/notes/C04.md): the invariant is about what the PARSER
+    stores.  The globals merge that follows copies entries between levels by id alone; if a subcommand defines its
+    own argument with the id of an ancestor's global argument and another value parser, the ancestor's level
+    reports under that id a value its own argument's parser refuses. *)
+Theorem C04_merged_typed_refuted :
+  exists (c1 : Cmd.cmd) (argv1 : list bytes) (m : Matcher.matches) (a : Cmd.arg) (ma : Matcher.marg),
+           Valid.valid c1 = true /\
+           Totality.plain c1 = true /\
+           Parser.parse_top c1 argv1 = Parser.OOk m /\
+           Cmd.find_arg (Build.build_self c1) [103] = Some a /\
+           Cmd.a_vp a = Some (Cmd.VPI64 0 9) /\
+           Matcher.fm_get [103] (Matcher.ms_args m) = Some ma /\
+           Matcher.m_raw ma = [[[97; 98; 99]]] /\
+           Parser.vp_parse (Cmd.VPI64 0 9) [97; 98; 99] = Some Errors.EValueValidation.
+Proof. exact TypedExamples.TypedEx.merged_typed_refuted. Qed.
+Print Assumptions C04_merged_typed_refuted.
+
+(** the ordinary use of a global argument (defined at the root, copied into the subcommand by the build step, given
+    after the subcommand name) satisfies globals_consistent; both reported levels hold the value *)
+Theorem C04_ex_merge_consistent :
+  exists (m : Matcher.matches) (st : Parser.ps),
+           Valid.valid TypedExamples.TypedEx.ck = true /\
+           Parser.do_parse TypedExamples.TypedEx.ck (tl TypedExamples.TypedEx.argv_k) = Parser.OOk m /\
+           m = Relations.reported TypedExamples.TypedEx.ck st /\
+           TypedMerge.chain_specs (Build.build_self TypedExamples.TypedEx.ck) (Matcher.into_inner (Parser.mt st))
+             [TypedMerge.cmd_spec (Build.build_self TypedExamples.TypedEx.ck);
+              TypedMerge.cmd_spec TypedExamples.TypedEx.sck] /\
+           TypedMerge.globals_consistent
+             (Parser.used_global_args (S (Parser.matches_depth (Matcher.into_inner (Parser.mt st))))
+                (Build.build_recursive (S (S (Cmd.depth (Build.build_self TypedExamples.TypedEx.ck))))
+                   TypedExamples.TypedEx.ck) (Matcher.into_inner (Parser.mt st)))
+             [TypedMerge.cmd_spec (Build.build_self TypedExamples.TypedEx.ck);
+              TypedMerge.cmd_spec TypedExamples.TypedEx.sck] (Globals.levels (Matcher.into_inner (Parser.mt st))) /\
+           TypedExamples.TypedEx.raws m TypedExamples.TypedEx.w_cfg = Some [[[52]]] /\
+           Cmd.opt_map (fun sm : Matcher.matches => TypedExamples.TypedEx.raws sm TypedExamples.TypedEx.w_cfg)
+             (TypedExamples.TypedEx.sub_of m) = Some (Some [[[52]]]).
+Proof. exact TypedExamples.TypedEx.ex_merge_consistent. Qed.
+Print Assumptions C04_ex_merge_consistent.
